@@ -227,7 +227,7 @@ def _slot_worker(a):
         pre += [{"t": "host", "id": cid, "name": "h.example"}, {"t": "ident", "id": cid, "name": "id"}]
     # variant with two clients waiting on A: between the reloads A gives its (owed) answer to the first of them - whatever
     # bookkeeping that triggers, the second client still waits on A only, and nothing B says is owed to it
-    two = rng.random() < 0.6
+    two = rng.random() < 0.6 or bool(a.get("refused_waiter"))
     cid2 = cid + 1
     if two:
         if pA == "combined":
@@ -243,6 +243,9 @@ def _slot_worker(a):
         if rng.random() < 0.35:
             # ... or is challenged by A and leaves in the middle of that dialogue
             mid_reply = [{"t": "reply", "svc": A, "tag": "%x_2" % cid2, "text": "MORE prove it"}, {"t": rng.choice(["disconnect", "registered"]), "id": cid2}]
+        if a.get("refused_waiter"):
+            # (every sixth scenario, whatever the dice say: the second waiter is refused by the retired A between the reloads)
+            mid_reply = [{"t": "reply", "svc": A, "tag": "%x_2" % cid2, "text": "NO go away"}]
     else:
         mid_reply = []
     mid = [{"t": "reload", "services": t1}] + mid_reply + [{"t": "reload", "services": t2}]
@@ -454,7 +457,7 @@ def run(chk, tier, scale=1.0):
         jobs.append(dict(build=b, config=cfg.to_json(), seed=rng.randrange(1 << 30), n=90, ids=([3, 4, 5][:rng.choice([2, 3])] if i % 5 else [[2147483647, -2, 7], [-2147483648, 5, 2000000000], [5, 1029, 65541]][(i // 5) % 3]),
                          nsets=4 if tier == "quick" else 8, kper=8, alt_services=alt))
     results = vcommon.pmap(_worker, jobs, chunksize=2)
-    results += vcommon.pmap(_slot_worker, [dict(build=b, seed=chk.seed * 1000 + k) for k in range(int((24 if tier == "quick" else 400) * scale))])
+    results += vcommon.pmap(_slot_worker, [dict(build=b, seed=chk.seed * 1000 + k, refused_waiter=(k % 6 == 5)) for k in range(int((24 if tier == "quick" else 400) * scale))])
     results += vcommon.pmap(_retired_worker, [dict(build=b, seed=chk.seed * 3000 + k, variant=k) for k in range(int((12 if tier == "quick" else 200) * scale) or 2)])
     results += vcommon.pmap(_report_worker, [dict(build=b, seed=chk.seed * 1000 + 500 + k) for k in range(int((12 if tier == "quick" else 200) * scale) or 1)])
     results += vcommon.pmap(_wrap_worker, [dict(build=b, n=n_, seed=chk.seed * 10 + k) for k, n_ in enumerate([256, 4096, 65536, 65536] + ([1 << 20] if tier != "quick" else []))])
